@@ -90,6 +90,22 @@ def head_mutations(rng):
                 (f"err-{st[:3].decode()}-cl-short-body", base.replace(b"\r\n\r\n", b"\r\nContent-Length: 50\r\n\r\nhi")),
                 (f"err-{st[:3].decode()}-cl-empty", base.replace(b"\r\n\r\n", b"\r\nContent-Length: \r\n\r\n")),
                 (f"err-{st[:3].decode()}-cl-spaces", base.replace(b"\r\n\r\n", b"\r\nContent-Length: 1 2\r\n\r\nab"))]
+    # error responses whose body is described by the server in ways a client might act upon: media types and character sets that do
+    # not exist, are not text codecs or are spelled oddly; encodings; a body that is not what the description says
+    for st in (b"403 Forbidden", b"503 Busy"):
+        base = rep(b"101 Switching Protocols", st)
+        for ci, cs in enumerate([b"utf8mb4", b"binary", b"x-user-defined", b"base64", b"undefined", b"idna", b"punycode", b"hex", b"rot13", b"zlib", b"unicode_escape",
+                                 b"raw_unicode_escape", b"utf-16", b"utf-32", b"utf-7", b"latin-1", b"ascii", b"cp65001", b"mbcs", b"oem", b"", b'""', b'"utf-8', b"utf-8;q=1", b"a\x00b",
+                                 b"\xff\xfe", "\u00fctf-8".encode(), b"UTF-8" * 40, b"none", b"charmap", b"x" * 300]):
+            body = [b"hello", b"\xff\xfe\x00h\x00i", b"\x1f\x8b\x08\x00binary\x00\xc3", "gr\u00fc\u00dfe".encode()][ci % 4]
+            for mt in (b"text/plain", b"text/html", b"TEXT/Plain", b"application/json"):
+                if mt != b"text/plain" and ci % 5:
+                    continue
+                out.append((f"err-{st[:3].decode()}-charset-{ci}-{mt.decode()}", base.replace(b"\r\n\r\n", b"\r\nContent-Type: " + mt + b"; charset=" + cs + b"\r\nContent-Length: "
+                            + str(len(body)).encode() + b"\r\n\r\n" + body)))
+        for hdr in (b"Content-Encoding: gzip", b"Content-Encoding: br", b"Transfer-Encoding: chunked", b"Content-Type: ", b"Content-Type: ;;;=", b"Content-Type: text/plain; charset",
+                    b"Content-Type: text/plain; =utf-8", b"Content-Type: multipart/form-data; boundary=", b"Content-Language: \xff"):
+            out.append((f"err-{st[:3].decode()}-{hdr.decode('latin-1')[:40]}", base.replace(b"\r\n\r\n", b"\r\n" + hdr + b"\r\nContent-Length: 6\r\n\r\n\x1f\x8b\x08\x00\xff\xfe")))
     for st in (b"301", b"302", b"303", b"307", b"308"):
         base = b"HTTP/1.1 " + st + b" Moved\r\n"
         for hostform in (b"127.1", b"127.0.1", b"0x7f.0.0.1", b"127.0.0.01", b"2130706433", b"127.0.0.1.", b"[::ffff:127.0.0.1]", b"1.2.3.4", b"999.1.1.1", b"1.2.3"):
